@@ -171,6 +171,7 @@ def c02(run):
                 "output on failure (XtObs!End/Agrees); non-trivial = multi-document or mutated input; distinct by bytes, formats and schedule")
     run.assumptions += OBS_ASSUME
     obs_stage(run, "witnesses,streams", _q(run, 25, 400), ["C02"], "generated single/multi-document streams of every format x 4 targets x explicit/detected x slice + 7 read schedules")
+    obs_stage(run, "encodings", _q(run, 6, 100), ["C02"], "YAML text in UTF-8/16/32 (LE/BE, +-BOM) x slice + 6 read schedules incl. cuts inside code units")
     obs_stage(run, "unknown", _q(run, 300, 6000), ["C02"], "mutated/truncated/spliced inputs x 3 source selections x slice + 4 read schedules")
 
 
